@@ -333,13 +333,14 @@ def catalogue(spec, model):
 PRIOR_KINDS = ['mode-linear', 'mode-log', 'Uniform', 'LogUniform', 'Gaussian', 'LogGaussian']
 
 
-def declare_prior(rng, name, entry, with_invalid, kind=None):
+def declare_prior(rng, name, entry, with_invalid, kind=None, probe_ok=False):
     """Choose a prior for one parameter.  Returns a declaration: what the harness asked for, in its own words --
     space ('linear'|'log'), family ('uniform'|'gaussian'), the two numbers of the inverse CDF in that space."""
     lo, hi = entry['valid']
     inv = entry.get('invalid') if with_invalid else None
     kinds = list(PRIOR_KINDS)
-    probe = entry.get('probe') if rng.random() < 0.5 else None
+    # (only the workload that judges accepted-but-NaN models asks for probing priors)
+    probe = entry.get('probe') if (probe_ok == 'force' or (probe_ok and rng.random() < 0.5)) else None
     if probe is not None:
         kinds = ['mode-linear', 'Uniform']
     if inv is not None:
